@@ -24,6 +24,58 @@ func c09(r *core.Report) {
 	c09Stable(r)
 	c09VarNames(r)
 	c09EveryServer(r)
+	c09ParamPrecedence(r)
+}
+
+// c09ParamPrecedence: the parameters returned with a route reproduce the request path.
+func c09ParamPrecedence(r *core.Report) {
+	p := r.Prog
+	info := p.Pkg("routers/legacy").TypesInfo
+	r.RunRule("C09.paramprecedence", "path parameters win over server variables of the same name: in the legacy router's FindRoute the stores of the path-template variables into the returned parameter map come after the stores of the server-URL variables (the later store wins): substituting the returned parameters into the template must give back the request path, which a server variable's value under the same name does not", 1, func() {
+		fd := p.DeclOf("routers/legacy", "Router.FindRoute")
+		serverStore, pathStore := token.NoPos, token.NoPos
+		ast.Inspect(fd.Body, func(nd ast.Node) bool {
+			as, ok := nd.(*ast.AssignStmt)
+			if !ok || len(as.Lhs) != 1 {
+				return true
+			}
+			ix, ok := ast.Unparen(as.Lhs[0]).(*ast.IndexExpr)
+			if !ok {
+				return true
+			}
+			if _, isMap := info.TypeOf(ix.X).Underlying().(*types.Map); !isMap {
+				return true
+			}
+			// which loop is it in?
+			for _, anc := range core.PathTo(fd.Body, as) {
+				if rs, ok := anc.(*ast.RangeStmt); ok {
+					src := core.ExprStr(rs.X)
+					key := core.ExprStr(ix.Index)
+					_ = key
+					// the loop body names the key from ParameterNames (server) or VariableNames (path)
+					txt := ""
+					ast.Inspect(rs.Body, func(m ast.Node) bool {
+						if id, ok := m.(*ast.Ident); ok {
+							txt += id.Name + " "
+						}
+						return true
+					})
+					switch {
+					case strings.Contains(txt, "paramNames"):
+						serverStore = as.Pos()
+					case strings.Contains(txt, "paramKeys") || strings.Contains(txt, "VariableNames"):
+						pathStore = as.Pos()
+					}
+					_ = src
+				}
+			}
+			return true
+		})
+		if serverStore == token.NoPos || pathStore == token.NoPos {
+			core.Fail("FindRoute: the two parameter-store loops were not both found")
+		}
+		r.Check(serverStore < pathStore, "paramprecedence:FindRoute", p.Pos(pathStore), "path variables are stored last", "the legacy router stores the server-URL variables into the parameter map after the path-template variables: for a server `https://{env}.example.com` and a path `/deploy/{env}`, the request https://qa.example.com/deploy/staging comes back with env=qa, and the parameters no longer reproduce the request path")
+	})
 }
 
 // c09EveryServer: the mux router answers for every server the document declares.
